@@ -47,9 +47,10 @@ class ApplicationException(Exception):
         return output
 
     @classmethod
-    def from_yaml_error(cls, error: yaml.MarkedYAMLError):
-        return cls(error.problem, Position(file=Path(error.problem_mark.name),
-                                           start=Cursor(line=error.problem_mark.line, col=error.problem_mark.column)))
+    def from_yaml_error(cls, error: yaml.MarkedYAMLError, file: Path = None):
+        # a YAML mark counts lines from 0 and is named "<unicode string>" when the text was read beforehand
+        return cls(error.problem, Position(file=file if file is not None else Path(error.problem_mark.name),
+                                           start=Cursor(line=error.problem_mark.line + 1, col=error.problem_mark.column)))
 
     @classmethod
     def from_json_error(cls, file: Path, error: json.JSONDecodeError):
